@@ -5,7 +5,7 @@ VERIF = os.path.dirname(os.path.dirname(os.path.abspath(__file__)))
 
 CHECKS = {
     "C01": ("reference-model monitor over generated declarations (runtime oracle on every try_new/new result; inputs repeated on a fresh thread and under 4 concurrent threads; bounds read from a run-time cell changed between calls)", "rt",
-            "Exploration: the real generated constructors are executed on exhaustive small domains (all 8/16-bit integers, all short strings over a hostile alphabet; thorough: all 2^32 f32 patterns for 8 declarations, every Unicode scalar) and boundary/random inputs of ~1100 generated declarations, each result compared with an independent sanitize-then-validate interpreter whose bounds are evaluated in Python. Not a proof: declarations and wide-type inputs are sampled.", "5/C01"),
+            "Exploration: the real generated constructors are executed on exhaustive small domains (all 8/16-bit integers, all short strings over a hostile alphabet; thorough: all 2^32 f32 patterns for 8 declarations, every Unicode scalar) and boundary/random inputs of ~3000 (quick) / ~6600 (thorough) generated declarations, each result compared with an independent sanitize-then-validate interpreter whose bounds are evaluated in Python. Not a proof: declarations and wide-type inputs are sampled.", "5/C01"),
     "C03": ("differential runtime monitor: each derived conversion vs the canonical constructor on the same input (also in a twin build with debug assertions off)", "rt",
             "Exploration: every derived TryFrom/From/FromStr(String)/Default is executed on the C01 input domains and compared (verdict, stored bits, error) with try_new/new; Default is compared with the constructor on the declared default expression (must panic iff rejected).", "5/C03"),
     "C06": ("differential runtime monitor: T::from_str vs Inner::from_str followed by the constructor + compile verdicts for FromStr impls in prelude-shadowing scopes", "rt",
@@ -19,21 +19,21 @@ CHECKS = {
     "C13": ("differential runtime monitor: views, Display, clone/clone_from, comparisons and hashes of the newtype vs the inner value (also on values stored through new_unchecked), all under catch_unwind + compile-verdict monitor on the exact types of the views of lifetime-/type-parameterised newtypes", "rt",
             "Exploration over all obtainable values and ~2k-50k pairs per declaration (equal, adjacent, equal only after sanitisation, random); map lookups through the borrowed form included.", "5/C13"),
     "C02": ("reference-model monitor with Python-denoted bounds over a spelling/layout corpus (accepted declarations are executed; rejected ones are fine) + compile-verdict monitor over declarations that cannot be honoured (invalid regex literals with valid twins, four feature sets)", "c02",
-            "Exploration: ~590 (quick) / ~2600 (thorough) declarations, one per syntactic form x family x validator kind, each accepted one driven through try_new on inputs around the denoted bound, its negation, half/double and +-10; the oracle's bound values come from Python arithmetic, never from the macro's parse.", "5/C02"),
+            "Exploration: ~1080 (quick) / ~3600 (thorough) declarations, one per syntactic form x family x validator kind, each accepted one driven through try_new on inputs around the denoted bound, its negation, half/double and +-10; the oracle's bound values come from Python arithmetic, never from the macro's parse.", "5/C02"),
     "C04": ("differential runtime monitor: Deserialize of the newtype vs a serde-derived reference newtype parsed from the same bytes, then the constructor; probing Deserializer; repeated documents; deserialize_in_place into an existing value", "rt",
-            "Exploration: ~150-200 serde declarations x 3 formats x 6 container positions x (serde-produced encodings of boundary/valid/invalid values, ~60 hostile documents per format, byte-level mutations). The critical direction (Ok where the reference says none = guard bypass) and the converse are both checked.", "5/C04"),
+            "Exploration: ~180-230 serde declarations x 3 formats x 6 container positions x (serde-produced encodings of boundary/valid/invalid values, ~60 hostile documents per format, byte-level mutations). The critical direction (Ok where the reference says none = guard bypass) and the converse are both checked.", "5/C04"),
     "C05": ("compile-verdict monitor over a bypass-attack catalogue (client-level and declaration-level attacks, two crate-feature sets) with positive-control twins + stand-alone fail-closed probe (regex without Unicode support) + offline rule checker over an expansion event log (nightly -Zunpretty=expanded parsed with syn)", "verdict+audit",
             "Exploration: ~1100 attack programs (each with a control twin that must compile) against 19 victim declarations x 2 visibilities, declaration-level attacks, a feature-off crate, plus structural rules over ~230 audited expansion modules. A catalogue samples 'all client programs'; the audit covers every function present in the audited expansions.", "5/C05"),
     "C08": ("compile-verdict monitor: rustc's verdict per generated declaration (span attribution, fixpoint to a clean build) vs an independent 3-valued reference predicate under 8 crate-feature sets; generated unit tests observed via cargo test (build errors attributed per case)", "verdict",
-            "Exploration: ~1900 declarations per crate-feature set, 8 sets (systematic matrix + one case per rejection rule with well-formed neighbours + hostile names + generics x derives + layouts + seeded random tail) and 89 expression-valued bound/default cases whose generated tests must fail exactly when contradictory.", "5/C08"),
+            "Exploration: ~1900 declarations per crate-feature set, 8 sets (systematic matrix + one case per rejection rule with well-formed neighbours + hostile names + generics x derives + layouts + seeded random tail) and 175 expression-valued bound/default cases whose generated tests must fail exactly when contradictory.", "5/C08"),
     "C09": ("reference-model monitor on every value produced by the derived Arbitrary (arbitrary and arbitrary_take_rest) under catch_unwind + stall watchdog (bounded-progress restatement of termination)", "rt",
-            "Exploration: all byte inputs of length <= 2, boundary patterns up to 64 bytes, encodings of special floats / case-expanding code points, random inputs, over ~550 (quick) declarations with non-empty valid sets; thorough adds all 2^32 4-byte inputs for 8 f32 generators. Known generator defects are listed in known_findings.json by cause class verified on the witness.", "5/C09"),
+            "Exploration: all byte inputs of length <= 2, boundary patterns up to 64 bytes, encodings of special floats / case-expanding code points, random inputs, over ~1040 (quick) / ~2060 (thorough) declarations with non-empty valid sets; thorough adds all 2^32 4-byte inputs for 8 f32 generators. Known generator defects are listed in known_findings.json by cause class verified on the witness.", "5/C09"),
     "C10": ("recording-Serializer trace check + byte-identity vs inner encoding + conditioned round-trip monitor + compile verdicts (owned deserialization from a short-lived buffer; serde impls in prelude-shadowing scopes)", "rt",
             "Exploration over every obtainable value of the serde corpus document domain in JSON, RON and MessagePack; the trace check is format independent.", "5/C10"),
     "C14": ("exhaustive runtime enumeration: produced sets of the derived Arbitrary (arbitrary and arbitrary_take_rest) over all <=2-byte inputs compared with the valid set", "rt",
             "Per declaration exhaustive (the generator consumes at most 2 bytes for ranges of <= 2^16 values, so [] plus all 1- and 2-byte inputs cover its whole behaviour); declarations are sampled from the grammar with a systematic core (range sizes 1,2,255,256,257,65536; every operator class in expression bounds).", "5/C14"),
     "C15": ("compile-verdict monitor on a generated #![no_std] library crate (nutype default-features = false, +serde, +arbitrary), built as `cargo check` and again as `cargo check --tests`, plus an alloc-free crate (neither alloc nor std in its graph), with std-using control declarations", "verdict",
-            "Exploration: ~850 (quick) declarations: families x guard variants x each derivable trait singly and all together x default/const_fn/generics must be in the clean build; three std-using controls must be rejected. Host target only.", "5/C15"),
+            "Exploration: ~1430 (quick) / ~2490 (thorough) declarations: families x guard variants x each derivable trait singly and all together x default/const_fn/generics must be in the clean build; three std-using controls must be rejected. Host target only.", "5/C15"),
     "C16": ("message-reading monitor: the relation stated in the error text is evaluated at the bound and its neighbours and compared with try_new; on the FromStr path the named rule must be violated by the number the text denotes", "rt",
             "Exploration over every (family x bound kind) with bounds of both signs/magnitudes; a closed phrase dictionary maps text to a relation; unknown wording is inconclusive, not a violation.", "5/C16"),
 }
